@@ -176,7 +176,17 @@ pub fn run(ctx: &Ctx, rec: &mut Rec) {
                     "hint": subs.iter().map(|s| json!({"call": s.idx, "was_square": s.flag, "y": hexs(&s.y)})).collect::<Vec<_>>()});
                 match &native {
                     None => {
-                        rec.violation(format!("{P}:satisfied-but-native-rejects:site={}:input={}:{}", g.name, class, desc),
+                        // One root cause, many wrappers: every gadget that decodes the encoding s = q-1 hits
+                        // isqrt with den = 0. That family is identified by the *input and hint*, not by the
+                        // wrapping gadget, so that the known finding is one signature and anything else
+                        // (another input class, another hint class, den != 0) stays a distinct violation.
+                        let sig = if class.split('|').any(|c| c == "s=q-1") && desc.contains("den=0:hint=(true,y^2=1)") && !desc.contains('+') {
+                            format!("{P}:satisfied-but-native-rejects:input-encoding=s=q-1:isqrt:den=0:hint=(true,y^2=1)")
+                        } else {
+                            format!("{P}:satisfied-but-native-rejects:site={}:input={}:{}", g.name, class, desc)
+                        };
+                        rec.count(&format!("known-family witnesses at site `{}`", g.name), if sig.contains("input-encoding=s=q-1") { 1 } else { 0 });
+                        rec.violation(sig,
                             format!("gadget `{}` is SATISFIED under a substituted prover hint although the native operation rejects the input ({class}); substitution {desc}", g.name), detail);
                     }
                     Some(wv) => match out {
